@@ -267,6 +267,7 @@ fn op_kind(op: &Op) -> &'static str {
         Op::RemoveDiscountPrice { .. } => "remove_discount_price",
         Op::SudoParams { .. } => "sudo_params",
         Op::WlAddMember { .. } => "wl_add_member",
+        Op::Migrate { .. } => "migrate",
     }
 }
 
@@ -336,6 +337,8 @@ pub struct Driver {
     started_price: Option<u128>,
     pub mints_ok: BTreeMap<String, u32>,
     static_overcharge_reported: bool,
+    /// public price according to the accepted price operations seen (creation value first)
+    traced_price: u128,
 }
 
 impl Driver {
@@ -343,6 +346,7 @@ impl Driver {
         let vname = w.v.name;
         let created_min_denom = denom_of(&w.factory_params()["min_mint_price"]);
         let ledger = Ledger { min: w.cfg.fp.min_price, denom: w.cfg.fp.denom.clone() };
+        let traced_price = amount_of(&w.minter_config()["mint_price"]);
         Driver {
             ledger,
             w,
@@ -356,6 +360,7 @@ impl Driver {
             started_price: None,
             mints_ok: BTreeMap::new(),
             static_overcharge_reported: false,
+            traced_price,
         }
     }
     pub fn now(&self) -> u64 {
@@ -426,7 +431,27 @@ impl Driver {
     /// one real operation + all monitors
     pub fn op(&mut self, op: &Op) -> bool {
         let b = self.before();
+        // the cw2 version a migration will find
+        let mig_version: Option<(u64, u64, u64)> = match op {
+            Op::Migrate { stored, .. } => {
+                let own = crate::w_migrate::get_cw2(&self.w.app, &self.w.minter);
+                let v = match stored {
+                    Some((_, v)) if v != "@own" => v.clone(),
+                    Some(_) => self.w.own_cw2.1.clone(),
+                    None => own.1,
+                };
+                parse_plain_version(&v)
+            }
+            _ => None,
+        };
         let out = self.w.run(op);
+        if let Op::Migrate { .. } = op {
+            // documented initialisation: a contract migrated from a version below 3.9.0 gets its
+            // discount cooldown anchor set to (now - 12 h), i.e. no earlier discount change counts
+            if out.ok && mig_version.map(|v| v < (3, 9, 0)).unwrap_or(false) {
+                self.last_change = None;
+            }
+        }
         if let Op::SudoParams { min_price: Some(m), .. } = op {
             if out.ok {
                 self.gov_min_changed = true;
@@ -501,6 +526,7 @@ impl Driver {
                             self.cut_below = Some((d, *price));
                         }
                     }
+                    self.traced_price = *price;
                 }
                 Op::UpdateDiscountPrice { who, price } => {
                     if *who != admin {
@@ -621,6 +647,23 @@ impl Driver {
                     }
                 }
                 _ => {}
+            }
+        }
+        // prices are set by the price operations only: whatever else happens (mints, purge,
+        // governance, a migration of the minter), the public price is the last accepted
+        // UpdateMintPrice (or the creation price) and the discount the last accepted
+        // UpdateDiscountPrice / none after RemoveDiscountPrice
+        {
+            let disc_a = a["discount_price"].get("amount").map(|_| amount_of(&a["discount_price"]));
+            if amount_of(&a["mint_price"]) != self.traced_price {
+                let t = self.traced_price;
+                self.violate("C07:price-changed-outside-price-operations", format!("after {:?} the public price is {} but the last accepted price operation set {}", op, amount_of(&a["mint_price"]), t));
+                self.traced_price = amount_of(&a["mint_price"]);
+            }
+            if disc_a != self.standing_discount {
+                let t = self.standing_discount;
+                self.violate("C07:discount-changed-outside-discount-operations", format!("after {:?} the discount is {:?} but the last accepted discount operation left {:?}", op, disc_a, t));
+                self.standing_discount = disc_a;
             }
         }
         // once the stored start time has passed, the public price never goes up again
@@ -902,6 +945,11 @@ fn next_step(rng: &mut Rng, d: &Driver, c: &SaleCase, lits: &[u128]) -> Step {
         86..=88 => {
             let t = now - t0 + rng.range(1, 2000) * S;
             Step::Op(Op::UpdateStartTime { who: admin_or(rng), secs: t / S, nanos: (t % S) as i64 })
+        }
+        // ---- a migration of the minter ----
+        89..=91 => {
+            let (who, stored) = gen_migrate_args(rng, &migrate_version_pool());
+            Step::Op(Op::Migrate { who, stored })
         }
         // ---- the price query against real mints ----
         _ => Step::Probe { who: pick_buyer(rng, d, c) },
@@ -1200,6 +1248,43 @@ fn corpus() -> Vec<Case> {
             probe(BUYERS[1]),
         ];
         v.push(Case::Sale(h));
+        // (I) migrations of the minter inside a price history: after a discount, after a price
+        // cut, by a stranger; from below 3.9.0 the cooldown anchor restarts (a discount may be
+        // set at once), from 3.9.0 on nothing changes
+        {
+            let mig = |who: &str, stored: Option<(&str, &str)>| Step::Op(Op::Migrate { who: who.into(), stored: stored.map(|(x, y)| (x.to_string(), y.to_string())) });
+            let mut mi = base_case(variant);
+            mi.steps = vec![
+                mig(CREATOR, Some(("@own", "3.8.9"))),
+                ump(120),
+                at(start),
+                udp(80),
+                probe(BUYERS[0]),
+                mig(CREATOR, Some(("@own", "3.9.0"))),
+                udp(70),                                // 0 ns after the discount: refused, nothing changed
+                mig(STRANGER, Some(("@own", "3.8.9"))),
+                udp(70),
+                mig(CREATOR, Some(("@own", "3.8.9"))),  // anchor := now - 12 h
+                probe(BUYERS[0]),                       // price and discount as before
+                udp(70),                                // accepted at once
+                probe(BUYERS[1]),
+                mig(CREATOR, None),
+                rdp(),                                  // refused: 0 ns after the last change
+                ump(100),
+                mig(CREATOR, Some(("@own", "3.15.0"))),
+                probe(BUYERS[1]),
+                mig(CREATOR, Some(("@own", "99.0.0"))),
+                mig(CREATOR, Some(("crates.io:something-else", "3.0.0"))),
+                mig(CREATOR, Some(("@own", "abc"))),
+                at(start + H1),
+                rdp(),
+                probe(BUYERS[2]),
+                mig(CREATOR, Some(("@own", "3.0.0"))),
+                udp(90),                                // accepted at once again
+                probe(BUYERS[2]),
+            ];
+            v.push(Case::Sale(mi));
+        }
         // (D) whitelist price while the attached whitelist is active; replacing it
         let mut dcase = base_case(variant);
         dcase.wl = true;
@@ -1373,6 +1458,7 @@ pub struct OeDriver {
     pub ledger: Ledger,
     started_price: Option<u128>,
     pub mints_ok: BTreeMap<String, u32>,
+    traced_price: u128,
 }
 
 impl OeDriver {
@@ -1380,7 +1466,9 @@ impl OeDriver {
         let vname = w.v.name;
         let created_min_denom = denom_of(&w.factory_params()["min_mint_price"]);
         let ledger = Ledger { min: w.cfg.fp.min_price, denom: w.cfg.fp.denom.clone() };
+        let traced_price = amount_of(&w.minter_config()["mint_price"]);
         OeDriver {
+            traced_price,
             ledger,
             w,
             res: CaseResult { coq: vec![], coq_oe: vec![], coq_extra: vec![], steps: 0, ok_steps: 0, violations: vec![], hist: BTreeMap::new(), executed: vec![], executed_oe: vec![] },
@@ -1479,6 +1567,7 @@ impl OeDriver {
                         );
                     }
                     let res_denom = denom_of(&a["mint_price"]);
+                    self.traced_price = *price;
                     if amount_of(&a["mint_price"]) != *price || res_denom != denom_of(&b["mint_price"]) {
                         self.violate("C07:update-price-effect", format!("UpdateMintPrice {} accepted but Config.mint_price is {}", price, a["mint_price"]));
                     }
@@ -1548,6 +1637,12 @@ impl OeDriver {
                 }
             }
             self.started_price = Some(public_a);
+        }
+        // the public price is set by UpdateMintPrice only (creation value first)
+        if amount_of(&a["mint_price"]) != self.traced_price {
+            let t = self.traced_price;
+            self.violate("C07:price-changed-outside-price-operations", format!("after {:?} the public price is {} but the last accepted price operation set {}", op, amount_of(&a["mint_price"]), t));
+            self.traced_price = amount_of(&a["mint_price"]);
         }
         // MintPrice repeats Config and the attached whitelist; the current price is the
         // whitelist's while it is active, the public price otherwise (no discount exists)
@@ -1735,6 +1830,10 @@ fn next_ostep(rng: &mut Rng, d: &OeDriver, c: &OeSaleCase, lits: &[u128]) -> OSt
             let t = now - t0 + rng.range(1, 1500) * S;
             OStep::Op(OeOp::UpdateStartTime { who: admin_or(rng), secs: t / S, nanos: (t % S) as i64 })
         }
+        81..=83 => {
+            let (who, stored) = gen_migrate_args(rng, &migrate_version_pool());
+            OStep::Op(OeOp::Migrate { who, stored })
+        }
         _ => {
             let all = [BUYERS[0], BUYERS[1], BUYERS[2], STRANGER, PAYADDR, CREATOR];
             let open: Vec<&str> = all.iter().copied().filter(|a| d.mints_ok.get(*a).copied().unwrap_or(0) < c.cfg.pal).collect();
@@ -1892,6 +1991,31 @@ fn oe_corpus() -> Vec<Case> {
                     oump(79),                                                              // lower than 90 but below the decided minimum: refused
                     oump(80),
                     oprobe(BUYERS[0]),
+                ],
+            }));
+        }
+        // (H) migrations of the minter inside a price history
+        {
+            let omig = |who: &str, stored: Option<(&str, &str)>| OStep::Op(OeOp::Migrate { who: who.into(), stored: stored.map(|(x, y)| (x.to_string(), y.to_string())) });
+            v.push(Case::OeSale(OeSaleCase {
+                cfg: oe_cfg(variant, false, 50, 100, true),
+                steps: vec![
+                    omig(CREATOR, Some(("@own", "3.8.9"))),
+                    oump(120),
+                    omig(STRANGER, Some(("@own", "3.8.9"))),
+                    oset_wl(1),
+                    omig(CREATOR, Some(("@own", "3.9.0"))),
+                    oat(350 * S),
+                    oprobe(BUYERS[0]),
+                    oat(start),
+                    oump(110),
+                    omig(CREATOR, None),
+                    oprobe(BUYERS[0]),
+                    omig(CREATOR, Some(("@own", "99.0.0"))),
+                    omig(CREATOR, Some(("crates.io:something-else", "3.0.0"))),
+                    oump(111),
+                    omig(CREATOR, Some(("@own", "2.0.0"))),
+                    oprobe(BUYERS[1]),
                 ],
             }));
         }
